@@ -112,6 +112,15 @@ CLAIMED = {
             "Python) makes positive progress or counts a bounded counter; that all four validate_crc compare stored with computed over the "
             "format's region; that Python readers wrap structural errors and never allocate an input-derived size. Codec libraries and "
             "value-level outcomes are not decided."),
+    "C09": ("table agreement (static evaluation of struct formats / DEF chains / field reads and writes against a reference table of the "
+            "format), extraction and comparison of the wire-element sequence of the four v2 record readers/writers, CFG ordering rules on "
+            "CRC computation and build(), bounds-fact and def-use rules on both batch splitters, recomputation of the CRC-32C table, feasible-"
+            "path enumeration of append() for purity of a refused record",
+            "Decides: the v2 and v0/v1 header layouts agree between Python struct, Cython constants, compiled reader, both writers and the "
+            "format's reference table, each header field is written from the state it denotes; the record element sequence is the same in all "
+            "four implementations and every raw run is sized by the varint before it; CRC is computed last over [21:] and stored at 17; both "
+            "splitters are cursor-relative and choose the class from the slice's own magic; the CRC-32C table is Castagnoli's; a refused "
+            "append leaves the builder untouched. Value-level round-trips, codecs and varint arithmetic are not decided."),
 }
 
 NA = {
